@@ -252,6 +252,10 @@ def check_tree(t, shape, assign, kinds=("anynode", "node", "user"), only=None):
         # what the exporter must see: vars() of the live node in insertion order
         live = [{k: v for k, v in vars(nd).items() if k not in BOOK} for nd in nodes]
         snap = tree_snapshot(nodes, idm)
+        # ONE exporter object constructed with other settings, used once, and re-configured through its public attributes
+        # before every call: must behave like a freshly constructed exporter with these settings
+        rex = DictExporter(dictcls=collections.OrderedDict, attriter=lambda items: [], childiter=lambda cs: list(cs)[:1], maxlevel=1)
+        rex.export(nodes[0])
         for start in range(m.n):
             t.c["states"] += 1
             h = m.height(start)
@@ -269,15 +273,24 @@ def check_tree(t, shape, assign, kinds=("anynode", "node", "user"), only=None):
                                 t.c["nontrivial"] += 1
                             if ml is not None and ml <= h and m.ch[start]:
                                 t.c["maxlevel_cuts"] += 1
-                            why = None
+                            why, reconf = None, False
                             if not same(exp, got, dictcls):
                                 why = "export differs from the reference serialisation"
                             elif not levels_ok(got, dictcls):
                                 why = "a nested level is not an instance of dictcls"
+                            elif not only:
+                                rex.dictcls, rex.attriter, rex.childiter, rex.maxlevel = dictcls, areal, creal, ml
+                                got2 = rex.export(nodes[start])
+                                t.c["evaluations"] += 1
+                                t.c["reconfigured_exports"] += 1
+                                if not same(exp, got2, dictcls) or not levels_ok(got2, dictcls):
+                                    why = "export of an exporter re-configured through its public attributes differs from a fresh exporter's"
+                                    got = got2
+                                    reconf = True
                             if why:
                                 t.violation("C10: " + why, {"engine": "E2", "module": MOD, "shape": shape, "assign": list(assign),
                                             "kind": kind, "start": start, "maxlevel": ml, "attriter": an, "childiter": cn,
-                                            "dictcls": dictcls.__name__, "expected": exp, "observed": got})
+                                            "dictcls": dictcls.__name__, "expected": exp, "observed": got, "reconfigured": reconf})
         if tree_snapshot(nodes, idm) != snap:
             t.violation("C10: export modified the tree", {"engine": "E2", "module": MOD, "shape": shape, "assign": list(assign), "kind": kind})
         if only:
@@ -348,7 +361,7 @@ def _tup(x):
 
 def replay(c):
     t = core.Tally()
-    only = (c["start"], c["maxlevel"], c["attriter"], c["childiter"], c["dictcls"]) if "attriter" in c else None
+    only = (c["start"], c["maxlevel"], c["attriter"], c["childiter"], c["dictcls"]) if "attriter" in c and not c.get("reconfigured") else None
     check_tree(t, _tup(c["shape"]), tuple(c["assign"]), kinds=(c["kind"],), only=only)
     return [v["why"] for v in t.violations]
 
@@ -362,7 +375,7 @@ def run(tier):
                 items.append((s, a))
     t = core.Tally()
     core.run_pool([(MOD, "job", {"items": c}) for c in core.chunks(items[::-1], core.NPROC * 8)] +
-                  [(MOD, "job", {"items": c}) for c in core.chunks(items, core.NPROC * 3 + 1)], 0, into=t)   # second pass, other order
+                  [(MOD, "job", {"items": c}) for c in core.chunks(items, core.NPROC * 3 + 1)] + [("mc.positional", "job", {"pid": "C10"})], 0, into=t)   # second pass, other order
     core.run_pool([(MOD, "job", {"items": c}) for c in core.chunks(items[:60], core.NPROC)], 1, into=t)
     cov = {
         "states": t.c["states"], "transitions": t.c["evaluations"], "traces_validated_against_impl": t.c["evaluations"],
@@ -376,5 +389,5 @@ def run(tier):
                 "arguments unmodified; non-trivial = exported subtree has more than one node" % (npart, nfull),
         "bounds": {"full_assignments_upto": nfull, "max_nodes": npart, "trees": len(items)},
     }
-    return {"tally": t, "coverage": cov, "guards": ("nontrivial", "maxlevel_cuts", "imports", "exports_after_callback_fault"),
+    return {"tally": t, "coverage": cov, "guards": ("positional_calls", "reconfigured_exports", "nontrivial", "maxlevel_cuts", "imports", "exports_after_callback_fault"),
             "assumptions": ["attribute values from a 5-element domain; node classes with an instance __dict__"]}
